@@ -99,6 +99,15 @@ def laws(rng):
         law('map_concat', lambda: ds.map(f).concatenate(ds_b.map(f)), lambda: ds.concatenate(ds_b).map(f), ('iter', 'len', 'gets'))
         law('map_batch', lambda: ds.map(f).batch(bs), lambda: ds.batch(bs).batch_map(f), ('iter', 'len', 'gets'), {'batch_size': bs})
         law('map_cache', lambda: ds.map(f).cache(), lambda: ds.cache().map(f), F_ALL)
+        # the same law for a map function that works in place on mutable examples (Dataset.map allows it): every
+        # access of the cached side hands the function an example of its own
+        rec = ds.map(lambda x: {'x': x, 'trace': []})
+
+        def f_inplace(e):
+            e['trace'].append('f')
+            e['x'] += c
+            return e
+        law('map_cache_inplace', lambda: rec.map(f_inplace).cache(), lambda: rec.cache().map(f_inplace), F_ALL)
         law('map_map', lambda: ds.map(f).map(g_), lambda: ds.map(lambda x: g_(f(x))), F_ALL)
         sel = sorted(rng.sample(range(n), rng.randint(0, n))) if n else []
         pm = rng.choice([2, 3])
